@@ -1062,7 +1062,7 @@ func ruleRetryAfterInstall(c *Ctx) {
 		out := ev(n)
 		inspectNoFuncLit(n, func(m ast.Node) bool {
 			if as, ok := m.(*ast.AssignStmt); ok && len(as.Lhs) == 1 && len(as.Rhs) == 1 {
-				if ie, ok := ast.Unparen(as.Lhs[0]).(*ast.IndexExpr); ok && len(params) >= 5 && objOfIdent(info, ie.X) == params[4] {
+				if ie, ok := ast.Unparen(as.Lhs[0]).(*ast.IndexExpr); ok && isInstallStack(info, fi, ie.X) {
 					if b, isB := boolConst(info, as.Rhs[0]); isB && b && canonTerm(fi, ie.Index) == opName+".Id" {
 						out = append(out, Event{Kind: "mark", Node: as})
 					}
@@ -1150,4 +1150,61 @@ func feedsHolder(info *types.Info, body *ast.BlockStmt, o types.Object, isHolder
 		return true
 	})
 	return feeds
+}
+
+// installStackRef: how addEntryInternal reaches the set of operation ids settled in this call tree: a parameter of
+// type map[uint64]bool, or the one field of that type of a parameter that points to a struct of the module (the
+// accumulators and the stack gathered in one run object).
+func installStackRef(info *types.Info, fi *FuncInfo) (types.Object, string) {
+	isStack := func(t types.Type) bool {
+		m, ok := t.Underlying().(*types.Map)
+		if !ok {
+			return false
+		}
+		k, ok1 := m.Key().Underlying().(*types.Basic)
+		v, ok2 := m.Elem().Underlying().(*types.Basic)
+		return ok1 && ok2 && k.Kind() == types.Uint64 && v.Kind() == types.Bool
+	}
+	for _, o := range paramObjs(info, fi.Decl) {
+		if o != nil && isStack(o.Type()) {
+			return o, ""
+		}
+	}
+	for _, o := range paramObjs(info, fi.Decl) {
+		if o == nil || !isModuleStruct(o.Type()) {
+			continue
+		}
+		pt, ok := o.Type().Underlying().(*types.Pointer)
+		if !ok {
+			continue
+		}
+		st, _ := pt.Elem().Underlying().(*types.Struct)
+		var names []string
+		for i := 0; st != nil && i < st.NumFields(); i++ {
+			if isStack(st.Field(i).Type()) {
+				names = append(names, st.Field(i).Name())
+			}
+		}
+		if len(names) == 1 {
+			return o, names[0]
+		}
+	}
+	return nil, ""
+}
+
+func isInstallStack(info *types.Info, fi *FuncInfo, e ast.Expr) bool {
+	root, field := installStackRef(info, fi)
+	if root == nil {
+		return false
+	}
+	if field == "" {
+		o := objOfIdent(info, e)
+		return o != nil && frameArgRoot(info, fi.Decl, o) == root
+	}
+	se, ok := ast.Unparen(e).(*ast.SelectorExpr)
+	if !ok || se.Sel.Name != field {
+		return false
+	}
+	o := objOfIdentPlain(info, se.X)
+	return o != nil && frameArgRoot(info, fi.Decl, o) == root
 }
